@@ -138,6 +138,14 @@ fn c14() -> Property {
         level: "fault_enumeration",
         variants: vec![
             Variant {
+                name: "connection-handle-vs-scripted-listener",
+                weight: 1,
+                make: || Box::pin(scen::c12::run_client()),
+                max_steps: 3_000_000,
+                cases_per_seed: 1,
+                note: "C12's client against a scripted listener (the peer closes with or without an error, hangs up on the endpoint's close, cuts the stream, goes silent, sends illegal frames; the final shutdown may fail), judged on what the connection handle reports: a clean result only if the peer wrote its close, the peer's error when it sent one",
+            },
+            Variant {
                 name: "transport-cut-sweep",
                 weight: 1,
                 make: || Box::pin(scen::c14::run_cut()),
@@ -239,6 +247,14 @@ fn c18() -> Property {
         id: "C18",
         level: "exploration",
         variants: vec![
+            Variant {
+                name: "retirement-under-a-dead-transaction-id",
+                weight: 1,
+                make: || Box::pin(scen::c18::run_scripted_retirement_under_dead_id()),
+                max_steps: 3_000_000,
+                cases_per_seed: 1,
+                note: "scripted controller <-> real listener that sends two deliveries on a feed link: the controller retires the first one (transactional state with outcome accepted, settled) under a transaction id that was never declared, was committed or was rolled back: the retirement must be refused with a transaction error on the wire and must not be applied (the sending application must not see the delivery accepted)",
+            },
             Variant {
                 name: "controller-resource-pair",
                 weight: 3,
@@ -549,6 +565,14 @@ fn c13() -> Property {
         id: "C13",
         level: "exploration",
         variants: vec![
+            Variant {
+                name: "detach-answered-late",
+                weight: 1,
+                make: || Box::pin(scen::c13p::run_detach_answered_late()),
+                max_steps: 3_000_000,
+                cases_per_seed: 1,
+                note: "real client <-> scripted peer that answers a detach only after the application's detach_with_timeout() / close() under a time-out has given up and the handle has been dropped: exactly one detach for that attach, the late answer is taken, another link attaches on the freed handle and sends",
+            },
             Variant {
                 name: "listener-pipelined-teardown",
                 weight: 1,
